@@ -21,7 +21,7 @@ def replay_A(rep, sig):
     hist = [h for h in hist if not (isinstance(h, str))]
     if hist and isinstance(hist[0], dict):  # solver-shaped label
         lab = hist[0]
-        hist = ex.build_deviated(lab['N'], [tuple(d) for d in lab['devs']], cfg['tol'])
+        hist = ex.build_deviated(lab['N'], [tuple(d) for d in lab['devs']], cfg['tol'], 'r', cfg['t0'], cfg['t1'])
     given = None
     if cfg.get('given', 'none') != 'none' and rep.get('mode') == 'labelled':
         from .checks.c03 import given_tensors
